@@ -16,6 +16,7 @@ import scratch as sc
 
 PATHS = ["a/f.txt", "b/n é.txt", "b/m.txt"]
 NEWPATHS = ["a/new.txt", "b/new.txt"]
+IGNORED = ["b/x.log"]   # excluded by the repository's .gitignore (*.log): never a change
 TARGETS = [{"path": "a"}, {"path": "b", "uses": ["a/f.txt"]}]
 ALL_TARGETS = ["a", "b"]
 FRESH = "9"
@@ -67,7 +68,7 @@ class ModelState:
             if eff != head.get(p):
                 out[p] = self.wt.get(p)
         for p in self.wt:
-            if p not in self.index:
+            if p not in self.index and p not in IGNORED:
                 out[p] = self.wt[p]
         return out
 
@@ -77,7 +78,10 @@ class ModelState:
             for c in alphabet["contents"]:
                 if self.wt.get(p) != c:
                     ops.append(["W", p, c])
-        for p in PATHS:
+        for p in IGNORED:
+            if p not in self.wt:
+                ops.append(["W", p, "1"])
+        for p in PATHS + IGNORED:
             if p in self.wt:
                 ops.append(["D", p])
         for p, q in alphabet["moves"]:
@@ -101,7 +105,7 @@ class ModelState:
         return ops
 
     def _add_changes(self):
-        return self.index != self.wt
+        return self.index != {p: c for p, c in self.wt.items() if p not in IGNORED}
 
     def apply(self, op):
         m = self.clone()
@@ -116,7 +120,7 @@ class ModelState:
             m.wt[op[2]] = m.wt.pop(op[1])
             m.index[op[2]] = m.index.pop(op[1])
         elif k == "ADD":
-            m.index = dict(m.wt)
+            m.index = {p: c for p, c in m.wt.items() if p not in IGNORED}
         elif k == "COMMIT":
             m.commits.append(dict(m.index))
         elif k in ("CPU", "CPUP", "CPUI", "CPUIP"):
@@ -146,7 +150,7 @@ class Real:
     def __init__(self, s):
         self.s = s
         self.r = sc.Repo(s, "r", TARGETS, commands={"a": {"build": "x"}, "b": {"build": "x"}},
-                         files={"b/keep.txt": "keep\n", "a/keep.txt": "keep\n"})
+                         files={"b/keep.txt": "keep\n", "a/keep.txt": "keep\n", ".gitignore": "monorail-out\n*.log\n"})
         self.commit_ids = [self.r.head()]
         self.last_update = None   # checkpoint object printed by the last successful update
         self.update_defects = []
@@ -197,7 +201,7 @@ class Real:
     # ---- observations of the real state
     def worktree(self):
         out = {}
-        for p in PATHS + NEWPATHS:
+        for p in PATHS + NEWPATHS + IGNORED:
             fp = self.r.path(p)
             if os.path.isfile(fp):
                 out[p] = hashlib.sha256(open(fp, "rb").read()).hexdigest()
@@ -254,7 +258,7 @@ def expected_changes(model, real, pending, begin=None, end=None):
     else:
         tb, te = model.commits[begin], model.commits[end]
         tracked = {p for p in set(tb) | set(te) if tb.get(p) != te.get(p)}
-    untracked = {p for p in model.wt if p not in model.index}
+    untracked = {p for p in model.wt if p not in model.index and p not in IGNORED}
     out = set()
     for p in tracked | untracked:
         cur = csha(model.wt[p]) if p in model.wt else ""
@@ -372,7 +376,8 @@ def inv_c07(model, real, ops, tier):
     # any content (fresh or one it had before), deletion of a committed file
     edits = [("W", p, FRESH) for p in PATHS if p in model.wt] + \
             [("W", p, c) for p in PATHS + NEWPATHS if p not in model.wt for c in ["1", "2", FRESH]] + \
-            [("D", p) for p in PATHS if p in model.wt and p in model.commits[-1]]
+            [("D", p) for p in PATHS if p in model.wt and p in model.commits[-1]] + \
+            [("W", p, FRESH) for p in IGNORED]
     seqs = [[e] for e in edits]
     if tier == "thorough":
         seqs += [[e1, e2] for e1 in edits for e2 in edits if e1[1] < e2[1]]
@@ -395,7 +400,7 @@ def inv_c07(model, real, ops, tier):
                 r.write(e[1], sc.content(e[2]))
             elif os.path.isfile(fp):
                 os.unlink(fp)
-        want = image([e[1] for e in seq])
+        want = image([e[1] for e in seq if e[1] not in IGNORED])
         got = targets()
         evals += 1
         if got != want:
